@@ -12,6 +12,12 @@ Z_NULLS_D2 = [1, 3]  # data set 2 carries NaN in the concrete column z at these 
 OPS = ["M1", "M2", "S1", "S2", "U1", "U2", "F1", "F2"]
 
 
+def all_formulas(seed: int, thorough: bool):
+    from . import formula_gen
+
+    return FORMULAS + [f for f in formula_gen.formulas(seed * 2 + 31, 60 if thorough else 8, "nobranch", max_terms=3) if "z" not in f]
+
+
 def cells(mm):
     labels = list(mm.model_spec.column_names)
     arr = numpy.asarray(mm, dtype=object).reshape((-1, len(labels)))
